@@ -107,4 +107,135 @@ theorem stringset_roundtrip (ks : List Bytes) (hnd : ks.Nodup) (hk : ∀ k ∈ k
     uvarint_put ks.length hn, hg, Int.toNat_natCast]
   refine key _ ?_ ?_ <;> rfl
 
+/-- **C26, BranchesRepos round trip**: for every list of (branch, bitmap) pairs, in order. roaring is a parameter:
+    `ser` is `WriteTo`, `parse` is `FromBuffer`; the hypothesis is that roaring's own serialisation round-trips
+    (checked by the harness on every generated bitmap). -/
+theorem branchesrepos_roundtrip {β} (parse : Bytes → Option β) (ser : β → Bytes) (hrt : ∀ m, parse (ser m) = some m)
+    (brs : List (Bytes × β)) (hk : ∀ br ∈ brs, br.1.length < 2 ^ 63 ∧ (ser br.2).length < 2 ^ 63)
+    (hn : brs.length < 2 ^ 63) :
+    decoded (branchesReposDecode parse (branchesReposEncode (brs.map fun br => (br.1, ser br.2)))) =
+      some (brs.map fun br => (br.1, some (some br.2))) := by
+  have key : ∀ R : Reader, R.b = (brs.map fun br => (br.1, ser br.2)).flatMap encBr → R.err = false →
+      decoded (do
+        let sr ← brLoop parse brs.length R []
+        pure (sr.2.ret (if sr.2.err then none else some sr.1))) =
+      some (brs.map fun br => (br.1, some (some br.2))) := by
+    intro R hb he
+    obtain ⟨r', h, _, he'⟩ := brLoop_enc parse ser hrt brs [] [] R (by simpa using hb) he hk
+    simp [h, he', decoded, Reader.ret]
+  have hlen := length_le_flatMap_encBr (brs.map fun br => (br.1, ser br.2))
+  simp only [List.length_map] at hlen
+  have hg : ¬ ((brs.length : Int) < 0 ∨
+      (brs.length : Int) > (((brs.map fun br => (br.1, ser br.2)).flatMap encBr).length : Int)) := by omega
+  unfold branchesReposDecode
+  simp only [branchesReposEncode, Reader.init, Reader.byt, ne_eq, not_true_eq_false, if_false, List.length_map,
+    uvarint_put brs.length hn, Int.toNat_natCast]
+  have hfm : (brs.map fun br => (br.1, ser br.2)).flatMap (fun br => encStr br.1 ++ encStr br.2) =
+      (brs.map fun br => (br.1, ser br.2)).flatMap encBr := rfl
+  rw [hfm]
+  simp only [hg, if_false]
+  refine key _ ?_ ?_ <;> rfl
+
+/-- **C26, ReposMap round trip**: for every map (given as the list `m` of its entries with distinct `uint32` keys, in
+    whatever order the Go map is iterated), including negative `IndexTimeUnix`, empty branch lists and the empty
+    map, decoding the encoding returns exactly that map. `WFEntry` states Go's value ranges (`uint32` key, `int64`
+    time, `int` lengths). -/
+theorem reposmap_roundtrip (m : RMap) (hnd : (m.map (·.1)).Nodup) (hwf : ∀ ke ∈ m, WFEntry ke)
+    (hn : m.length < 2 ^ 63) (ht : totalBranches m < 2 ^ 63) :
+    decoded (reposMapDecode (reposMapEncode (some m))) = some (some m) := by
+  have key : ∀ R : Reader, R.b = m.flatMap encEntry → R.err = false →
+      decoded (do
+        let mr ← entryLoop true (totalBranches m) m.length R [] []
+        match mr.1 with
+        | none => pure (mr.2.ret none)
+        | some m' => pure (mr.2.ret (if mr.2.err then none else some (some m')))) = some (some m) := by
+    intro R hb he
+    obtain ⟨r', h, _, he'⟩ := entryLoop_enc (totalBranches m) m [] [] [] R (by simpa using hb) he (by simp) hwf
+      (by simpa using hnd)
+    simp [h, he', decoded, Reader.ret]
+  have h1 := length_le_flatMap_encEntry m
+  have h2 := totalBranches_le m
+  have h0 := putUvarint_length_pos (totalBranches m)
+  have hg1 : ¬ ((m.length : Int) < 0 ∨
+      (m.length : Int) > ((putUvarint (totalBranches m) ++ m.flatMap encEntry).length : Int)) := by
+    simp only [List.length_append]; omega
+  have hg2 : ¬ ((totalBranches m : Int) < 0 ∨ (totalBranches m : Int) > ((m.flatMap encEntry).length : Int)) := by
+    omega
+  unfold reposMapDecode
+  simp only [reposMapEncode, List.length_cons, Nat.add_eq_zero_iff, Nat.succ_ne_self, and_false, if_false,
+    Reader.init, Reader.byt, List.append_assoc, uvarint_put m.length hn, hg1, Reader.charge,
+    uvarint_put (totalBranches m) ht, hg2, Int.toNat_natCast]
+  simp only [ne_eq, not_true_eq_false, and_false, if_false]
+  refine key _ ?_ ?_ <;> rfl
+
+/-- the nil map is encoded as no bytes and decoded back to nil -/
+theorem reposmap_roundtrip_nil : decoded (reposMapDecode (reposMapEncode none)) = some none := by
+  simp [reposMapEncode, reposMapDecode, decoded]
+
+/-! ## the code before the fix: the totality clause was false (witnesses replayed on the real code from corpus/C26) -/
+
+/-- before the fix, 12 input bytes made `stringSetDecode` panic: element length 2^64-1 is `int` -1, which passed
+    `l > len(b)` and reached `b[:l]` (corpus/C26/ss-neg-strlen.json) -/
+theorem orig_stringset_panics :
+    stringSetDecodeOrig [1, 1, 0xff, 0xff, 0xff, 0xff, 0xff, 0xff, 0xff, 0xff, 0xff, 0x01] =
+      .panic "slice bounds out of range [:l]" := by
+  decide
+
+/-- the same bytes are an ordinary error for the fixed decoder -/
+theorem fixed_stringset_rejects :
+    decoded (stringSetDecode [1, 1, 0xff, 0xff, 0xff, 0xff, 0xff, 0xff, 0xff, 0xff, 0xff, 0x01]) = none := by
+  decide
+
+/-- before the fix, running time and allocation were not bounded by any function of the input length: for every
+    `n < 2^63` an input of at most 10 bytes made the decoder allocate for `n` elements and loop `n` times
+    (corpus/C26/ss-huge-count-loop.json, ss-count-alloc.json). Hence `TotalP` fails for the original code. -/
+theorem orig_stringset_unbounded (n : Nat) (hn : n < 2 ^ 63) :
+    (1 :: putUvarint n).length ≤ 10 ∧
+    ∃ r, stringSetDecodeOrig (1 :: putUvarint n) = .ok r ∧ r.steps = n ∧ n ≤ r.alloc := by
+  constructor
+  · have := putUvarint_length_le 9 n (by omega) (by simpa using hn)
+    simp; omega
+  · obtain ⟨res, r', h, hs, ha, he⟩ := strLoopOrig_empty n
+      ⟨[], false, (1 :: putUvarint n).length + n, 0⟩ [] rfl
+    refine ⟨r'.ret (if r'.err then none else some res), ?_, ?_, ?_⟩
+    · unfold stringSetDecodeOrig
+      have hu := uvarint_put n hn [] false (1 :: putUvarint n).length 0
+      simp only [List.append_nil] at hu
+      simp only [Reader.init, Reader.byt, ne_eq, not_true_eq_false, if_false, hu, Int.toNat_natCast,
+        Reader.charge, h, bind_ok, pure_eq]
+    · simpa [Reader.ret] using hs
+    · simp only [Reader.ret]; omega
+
+theorem orig_stringset_not_total : ¬ ∀ b, TotalP b.length (stringSetDecodeOrig b) := by
+  intro h
+  obtain ⟨hl, r, hr, hs, _⟩ := orig_stringset_unbounded 1000 (by omega)
+  obtain ⟨r2, hr2, _, hs2⟩ := h (1 :: putUvarint 1000)
+  rw [hr] at hr2
+  cases hr2
+  omega
+
+/-! ## non-vacuity: the hypotheses of the round-trip theorems are satisfiable, and decoding does both accept and reject -/
+
+example : decoded (stringSetDecode (stringSetEncode [[97], [98, 99], []])) = some [[97], [98, 99], []] :=
+  stringset_roundtrip _ (by decide) (by decide) (by decide)
+
+example : decoded (reposMapDecode (reposMapEncode (some [(7, ⟨true, [([97], [98])], -5⟩), (4294967295, ⟨false, [], 0⟩)]))) =
+    some (some [(7, ⟨true, [([97], [98])], -5⟩), (4294967295, ⟨false, [], 0⟩)]) :=
+  reposmap_roundtrip _ (by decide) (by simp [WFEntry]) (by decide) (by decide)
+
+example : decoded (branchesReposDecode (fun b => some b) (branchesReposEncode ([([72], [1, 2])].map fun br => (br.1, id br.2)))) =
+    some [([72], some (some [1, 2]))] :=
+  branchesrepos_roundtrip (fun b => some b) id (fun _ => rfl) [([72], [1, 2])] (by decide) (by decide)
+
+-- a version-1 ReposMap (no IndexTimeUnix), one entry with one branch
+example : decoded (reposMapDecode [1, 1, 1, 7, 1, 1, 1, 97, 1, 98]) = some (some [(7, ⟨true, [([97], [98])], 0⟩)]) := by
+  decide
+-- a string running past the end of the input: an error, not a value
+example : decoded (reposMapDecode [2, 1, 1, 7, 1, 0, 1, 5, 97]) = none := by decide
+-- quirk of the code, kept by the model: a *truncated varint* reads as 0 without error (`binary.Uvarint` returns
+-- n = 0, and only n < 0 is treated as malformed), so this truncated entry decodes to a value
+example : decoded (reposMapDecode [2, 1, 1, 7, 1]) = some (some [(7, ⟨true, [], 0⟩)]) := by decide
+-- a count larger than the remaining input: rejected before any allocation
+example : reposMapDecode [2, 0x80, 0x80, 0x40, 0] = .ok ⟨none, 5, 0⟩ := by decide
+
 end ZoektModel.C26
